@@ -38,6 +38,19 @@ enum FormatResult {
     Diff(Vec<u8>),
 }
 
+/// Sets the error exit code if the job holding it panics.
+/// `ThreadPool::panic_count` alone is not enough: a panicking worker is counted as finished
+/// before its panic is counted, so `pool.join()` can return in between.
+struct ExitCodeOnPanic;
+
+impl Drop for ExitCodeOnPanic {
+    fn drop(&mut self) {
+        if std::thread::panicking() {
+            EXIT_CODE.store(2, Ordering::SeqCst);
+        }
+    }
+}
+
 /// Wraps an error to include information about the file it resonated from
 #[derive(Error, Debug)]
 #[error("{:#}", .error)]
@@ -438,6 +451,7 @@ fn format(opt: opt::Opt) -> Result<i32> {
                     let config = config_resolver.load_configuration_for_stdin()?;
 
                     pool.execute(move || {
+                        let _exit_code_on_panic = ExitCodeOnPanic;
                         let mut buf = String::new();
                         tx.send(
                             stdin()
@@ -508,6 +522,7 @@ fn format(opt: opt::Opt) -> Result<i32> {
 
                         let tx = tx.clone();
                         pool.execute(move || {
+                            let _exit_code_on_panic = ExitCodeOnPanic;
                             tx.send(
                                 format_file(&path, config, range, &opt, verify_output).map_err(
                                     |error| {
